@@ -1039,6 +1039,11 @@ func checkModuleMigrationsWriteNoData(p *Prog, r *Report, kp func(string, string
 					if (so.Op == "Set" || so.Op == "Delete") && InPkgs(so.Fn, "x/pnft") && !(so.Key != nil && otherFamilyKey(p, so.Key)) {
 						bad = "a raw " + so.Op + " on the pnft store (in " + FuncName(g) + ")"
 					}
+					// a raw delete (or a write that is not the DID setter's) in x/did removes or rewrites documents and tombstones:
+					// "cleaning up orphans" takes the tombstone, whose document is empty, for one
+					if (so.Op == "Set" || so.Op == "Delete") && InPkgs(so.Fn, "x/did") && !didM.setters[g] && !(so.Key != nil && otherFamilyKey(p, so.Key)) {
+						bad = "a raw " + so.Op + " on the did store (in " + FuncName(g) + ")"
+					}
 				}
 				for _, c2 := range callSites(g) {
 					if c2.Callee != nil {
